@@ -92,3 +92,24 @@ Definition w_nested : pval :=
      (kstr "e", plist 25 [PSparse 26 (s "scipy.sparse._csr") (s "csr_matrix") (s "tok-csr"); PDType 27 (s "tok-dt");
                           PFunc 28 (s "numpy") (s "sqrt"); PType 29 (s "builtins") (s "int");
                           PArr 30 true (s "numpy") (s "float64") (s "tok-scalar")])].
+
+(* user objects on the generic object path: a scipy sparse *array* (state = its __dict__); a user class whose state is a dict holding a
+   list that also occurs outside the object; ONE object `o` reachable from three places (twice in a list, once as an attribute of
+   another object) and from a __reduce__ argument tuple; states that are not dicts (a tuple, the int 0, False, None, the empty tuple);
+   an object without state; a __reduce__ constructor object *)
+Definition w_objects : pval :=
+  let sh := plist 60 [pint 1; pstr_ 61 "x"] in
+  let o := PObj 62 (s "values") (s "Plain") HKNone [] OKState
+             (pdict 63 [(kstr "a", sh); (kstr "coef_", PArr 64 false (s "numpy") (s "ndarray") (s "tok-coef"))]) in
+  let arr := PObj 65 (s "scipy.sparse._csr") (s "csr_array") HKNone [] OKState
+               (pdict 66 [(kstr "_shape", ptuple 67 [pint 3; pint 4]); (kstr "data", PArr 68 false (s "numpy") (s "ndarray") (s "tok-data"));
+                          (kstr "maxprint", pint 50)]) in
+  ptuple 69 [plist 70 [o; sh; o]; arr;
+             PObj 71 (s "values") (s "WithState") HKNone [] OKState (pdict 72 [(kstr "payload", o)]);
+             PObj 73 (s "values") (s "FalsyState") HKNone [] OKState (ptuple 74 [pint 1; sh]);
+             PObj 75 (s "values") (s "FalsyState") HKNone [] OKState (pint 0);
+             PObj 76 (s "values") (s "FalsyState") HKNone [] OKState (PScalar 77 (SBool false));
+             PObj 78 (s "values") (s "FalsyState") HKNone [] OKState (PScalar 79 SNone);
+             PObj 80 (s "values") (s "FalsyState") HKNone [] OKState (ptuple empty_tuple_id []);
+             PObj 81 (s "values") (s "NoState") HKNone [] OKNoState pnone;
+             PObj 82 (s "values") (s "ReduceCtor") HKNone [] OKReduce (ptuple 83 [o; pint 0])].
